@@ -36,7 +36,8 @@ def load_known():
 
 def known_match(known, prop, sig):
     for k in known.get('known', []):
-        if k['property'] == prop and sig.startswith(k['signature']):
+        if k['property'] == prop and any(sig.startswith(s)
+                                         for s in k['signatures']):
             return k
     return None
 
@@ -150,6 +151,7 @@ def main(prop, tier='quick', replay=None, selftest=False, runs=None,
     good = [r for r in results if 'harness' not in r]
 
     known = load_known()
+    directed = replay_known(mod, known)
     viol = [r for r in good if r.get('violations')]
     by_sig = {}
     for r in viol:
@@ -162,11 +164,17 @@ def main(prop, tier='quick', replay=None, selftest=False, runs=None,
     for sig, lst in sorted(by_sig.items()):
         k = known_match(known, prop, sig)
         if k:
-            g = known_groups.setdefault(k['signature'], [k, [], 0])
+            g = known_groups.setdefault(k['id'], [k, [], 0])
             g[1].append(sig)
             g[2] += len(lst)
         else:
             new_sigs.append(sig)
+    for k, hit in directed:
+        if hit and k['id'] not in known_groups:
+            known_groups[k['id']] = [k, [hit], 0]
+        elif not hit:
+            print('NOTE: known finding %s did not reproduce from %s on this '
+                  'tree' % (k['id'], k.get('replay')))
     for ksig, (k, sigs, nruns) in sorted(known_groups.items()):
         what = k['what'] if len(k['what']) < 300 else k['what'][:297] + '...'
         known_lines.append('KNOWN-FINDING: property=%s %s [signature %s; '
@@ -217,6 +225,31 @@ def main(prop, tier='quick', replay=None, selftest=False, runs=None,
 
 
 # ---------------------------------------------------------------------------
+def replay_known(mod, known):
+    """Directed replays: every listed known finding of this property is
+    re-run from its committed replay file, so that its KNOWN-FINDING line
+    does not depend on the seeded search happening to meet it."""
+    out = []
+    for k in known.get('known', []):
+        if k['property'] != mod.PROP or not k.get('replay'):
+            continue
+        path = os.path.join(ROOT, k['replay'])
+        try:
+            with open(path) as f:
+                case = util.loads(f.read())
+            res = run_one(mod, case)
+        except Exception:
+            out.append((k, None))
+            continue
+        hit = None
+        for x in res.get('violations', []) if 'harness' not in res else []:
+            if any(x['sig'].startswith(s) for s in k['signatures']):
+                hit = x['sig']
+                break
+        out.append((k, hit))
+    return out
+
+
 def report_violation(mod, case, v):
     """Minimise, write the replay file, confirm in a fresh interpreter."""
     sig = v['sig']
